@@ -203,3 +203,62 @@ package option
 //@     modifies mapof(MapOf(opt))
 //@     invariant map.start: $idx == 0 - 1 ==> MapSame(opt)
 //@     invariant map.one: len(a) == 1 && $idx == 0 ==> contains(a[0], "=") && MapPut(opt, a[0])
+
+// ---- New ------------------------------------------------------------------------
+//
+// The data argument must be a non-nil pointer of the type that matches the kind (what the typed definers pass).
+//@ spec func DataTag(t Type) string = ite(t == BoolType, "*bool", ite(IsStringKind(t), "*string", ite(UsesPInt(t), "*int", ite(IsFloatKind(t), "*float64",
+//@     ite(t == StringRepeatType, "*[]string", ite(t == IntRepeatType, "*[]int", ite(t == Float64RepeatType, "*[]float64", "*map[string]string")))))))
+//@ spec func DataOK(t Type, d any) bool = KindOK(t) && d != nil && typetag(d) == DataTag(t) && ifaceref(d, *int) != nil
+//@ spec func IsMultiKind(t Type) bool = t == StringRepeatType || t == IntRepeatType || t == Float64RepeatType || t == StringMapType
+
+//@ func New
+//@   props C01 C02 C06 C12 C18 C19
+//@   requires new.data: DataOK(optType, data)
+//@   requires new.map: optType == StringMapType ==> *ifaceref(data, *map[string]string) != nil
+//@   modifies
+//@   ensures new.fresh: fresh(result) && result.Name == name && result.OptType == optType
+//@   ensures new.flags {C06}: !result.Called && result.UsedAlias == "" && !result.IsRequired && result.EnvVar == "" && !result.Unknown && len(result.ValidValues) == 0
+//@   ensures new.aliases {C06,C18}: len(result.Aliases) == 1 && result.Aliases[0] == name
+//@   ensures new.rep: RepOK(result)
+//@   ensures new.recv.bool {C06}: optType == BoolType ==> result.pBool == ifaceref(data, *bool) && result.boolDefault == *ifaceref(data, *bool)
+//@   ensures new.recv.string {C06}: IsStringKind(optType) ==> result.pString == ifaceref(data, *string)
+//@   ensures new.recv.int {C06}: UsesPInt(optType) ==> result.pInt == ifaceref(data, *int)
+//@   ensures new.recv.float {C06}: IsFloatKind(optType) ==> result.pFloat64 == ifaceref(data, *float64)
+//@   ensures new.recv.strs {C06}: optType == StringRepeatType ==> result.pStringS == ifaceref(data, *[]string)
+//@   ensures new.recv.ints {C06}: optType == IntRepeatType ==> result.pIntS == ifaceref(data, *[]int)
+//@   ensures new.recv.floats {C06}: optType == Float64RepeatType ==> result.pFloat64S == ifaceref(data, *[]float64)
+//@   ensures new.recv.map {C06}: optType == StringMapType ==> result.pStringM == ifaceref(data, *map[string]string)
+//@   ensures new.minmax.scalar {C01}: (optType == StringType || optType == IntType || optType == Float64Type) ==> result.MinArgs == 1 && result.MaxArgs == 1 && !result.IsOptional
+//@   ensures new.minmax.optional {C01}: (optType == StringOptionalType || optType == IntOptionalType || optType == Float64OptionalType) ==> result.MinArgs == 0 && result.MaxArgs == 1 && result.IsOptional
+//@   ensures new.minmax.flag {C01}: (optType == BoolType || optType == IncrementType) ==> result.MinArgs == 0 && result.MaxArgs == 0 && !result.IsOptional
+//@   ensures new.minmax.multi {C02}: IsMultiKind(optType) ==> result.MinArgs == 1 && result.MaxArgs == 1 && !result.IsOptional
+
+//@ func (*Option).Synopsis
+//@   props C18 C19
+//@   requires opt != nil
+//@   modifies opt.HelpSynopsis
+
+//@ func (*Option).SetAlias
+//@   props C06 C18 C19
+//@   requires opt != nil
+//@   modifies opt.Aliases, opt.HelpSynopsis
+//@   ensures setalias {C06,C18}: isconcat(opt.Aliases, old(opt.Aliases), alias) && result == opt
+
+//@ func (*Option).SetDescription
+//@   props C18 C19
+//@   requires opt != nil
+//@   modifies opt.Description
+//@   ensures opt.Description == s && result == opt
+
+//@ func (*Option).SetHelpArgName
+//@   props C18 C19
+//@   requires opt != nil
+//@   modifies opt.HelpArgName, opt.HelpSynopsis
+//@   ensures opt.HelpArgName == s && result == opt
+
+//@ func (*Option).SetDefaultStr
+//@   props C18 C19
+//@   requires opt != nil
+//@   modifies opt.DefaultStr
+//@   ensures opt.DefaultStr == s && result == opt
